@@ -32,6 +32,11 @@ P = {
         note="Raw solver outputs and gaussian (lb, ub) are oracle inputs; tie guard of 1e-6 around .5.",
         tech="Coq proof over Q (round-half-even lemmas) + capture/stub-solver correspondence",
         ref="DESIGN.md section 5 C03"),
+    "C11": dict(
+        text="Theorems (any rows, aggregate list, group, level): appending one row to the unexpected frame changes counted votes, prediction and both bounds of a group by exactly the unit's votes iff the unit is attributable to that group, leaves the reporting count alone, enlarges the group set by at most its own key, creates a new group with every column = its votes; bootstrap numerator/denominator likewise. Correspondence: paired runs with/without the extra feed row, delta checked inside Coq (check_delta) and by a statement oracle; 'never fails' = the second run completes whenever the first does.",
+        note="Bootstrap float tables: 'unchanged' = equal within 1e-9 relative; four input classes are recorded known findings (F10b, F11, F14, F15).",
+        tech="Coq proof (additivity of group sums over appended rows) + paired-run differential correspondence",
+        ref="DESIGN.md section 5 C11"),
 }
 
 REASON_NOT_BUILT = "check not built yet in this development stage (planned: see DESIGN.md section 5)"
